@@ -750,6 +750,41 @@ def normalise_loops(fn):
     return fn
 
 
+def const_int(node):
+    """value of an integer constant expression ( 65535, pow(2, 16) - 1, 2 ** 16 - 1, 1 << 16, np.iinfo(np.uint16).max ) or None"""
+    if isinstance(node, ast.Constant) and isinstance(node.value, int) and not isinstance(node.value, bool):
+        return node.value
+    if isinstance(node, ast.UnaryOp) and isinstance(node.op, ast.USub):
+        v = const_int(node.operand)
+        return None if v is None else -v
+    if isinstance(node, ast.BinOp):
+        a, b = const_int(node.left), const_int(node.right)
+        if a is None or b is None:
+            return None
+        try:
+            if isinstance(node.op, ast.Add):
+                return a + b
+            if isinstance(node.op, ast.Sub):
+                return a - b
+            if isinstance(node.op, ast.Mult):
+                return a * b
+            if isinstance(node.op, ast.Pow) and 0 <= b <= 64:
+                return a ** b
+            if isinstance(node.op, ast.LShift) and 0 <= b <= 64:
+                return a << b
+            if isinstance(node.op, ast.FloorDiv) and b != 0:
+                return a // b
+        except Exception:
+            return None
+        return None
+    if isinstance(node, ast.Call) and src(node.func) == "pow" and len(node.args) == 2:
+        a, b = const_int(node.args[0]), const_int(node.args[1])
+        return a ** b if a is not None and b is not None and 0 <= b <= 64 else None
+    t = src(node).replace(" ", "")
+    limits = {"np.iinfo(np.uint16).max": 65535, "numpy.iinfo(numpy.uint16).max": 65535, "np.iinfo(np.int32).max": 2 ** 31 - 1, "np.iinfo(np.uint8).max": 255}
+    return limits.get(t)
+
+
 def cmp_norm(test):
     """(op, left text, right text) of a single comparison with > and >= mirrored into < and <= ( 0.1 > x  ->  x < 0.1 ), 'not'
     folded into the operator; None for anything else"""
